@@ -210,6 +210,7 @@ func (propC10) Check(c *Case) (*Violation, *RunInfo) {
 			refRec = cloneRecipe(c.Recipe)
 			refRec.Ops[i] = Op{K: "render"}
 		}
+		restoreGlobals() // every world starts as a fresh process would
 		envR := newEnv(c.Execs[0].sim())
 		envR.Sandbox = sandbox + "/r"
 		envR.NoFaultOp, envR.UpTo = i, i
@@ -218,6 +219,7 @@ func (propC10) Check(c *Case) (*Violation, *RunInfo) {
 		// second reference: the same history in a world where no fault ever fired. On code
 		// that keeps the property the two agree; if they differ, an earlier failed call has
 		// changed what this call delivers, so "exactly the rendered output" no longer holds.
+		restoreGlobals()
 		envC := newEnv(c.Execs[0].sim())
 		envC.Sandbox = sandbox + "/c"
 		envC.NoFaults, envC.UpTo = true, i
